@@ -64,6 +64,18 @@ def gen_case(rng, max_n):
             "entry": rng.choice(["flat_cluster", "flat_upgma"])}
 
 
+def deep_cases(n=24):
+    """Chain matrices (d(i, i+1) = 0, everything else 1) merged into one cluster by n - 1 successive merges, run
+    under a recursion limit just above the current depth (see run_impl): the implementation either raises
+    RecursionError (skipped) or returns the model's partition."""
+    m = [[F(0) if abs(i - j) <= 1 else F(1) for j in range(n)] for i in range(n)]
+    for meth, t in (("single", F(1, 2)), ("complete", F(1)), ("upgma", F(1)), ("single", F(0))):
+        for limit in (8, 14):
+            yield {"method": meth, "n": n, "kind": "chain", "matrix": m, "t1": t, "t2": F(1),
+                   "container": "list", "taxa_container": "list", "names": "plain", "int_thr": False,
+                   "entry": "flat_cluster", "reclimit": limit}
+
+
 def exhaustive_cases(n_max=4, vals=(F(0), F(1, 2), F(1)), thrs=(F(0), F(3, 10), F(1, 2), F(1))):
     for n in range(1, n_max + 1):
         pairs = [(i, j) for i in range(n) for j in range(i + 1, n)]
@@ -86,7 +98,7 @@ def run_impl(case):
     meth = case["method"]
     n = case["n"]
     if case.get("names") == "odd":      # names with blanks, case variants, digits, non-ASCII letters
-        pool = ["Old High German", "a", "A", "t 1", "t_1", "Éwé", "10", "x.y", "Ж", "b'c", "0", "T1", "t1 ", "n/a"]
+        pool = ["Old High German", "Zu\u0308rich", "a", "A", "Z\u00fcrich", "t 1", "t_1", "Éwé", "10", "x.y", "Ж", "b'c", "0", "T1", "t1 ", "n/a"]
         taxa = pool[:n] if n <= len(pool) else pool + ["t%d" % i for i in range(n - len(pool))]
     else:
         taxa = ["t%d" % i for i in range(n)]
@@ -104,7 +116,26 @@ def run_impl(case):
         if meth == "upgma" and case.get("entry") == "flat_upgma":
             return clustering.flat_upgma(t, m, *a, **k)
         return clustering.flat_cluster(meth, t, m, *a, **k)
-    out = fc(thr(case["t1"]), mk())
+    if case.get("reclimit"):
+        # the agglomerators recurse once per merge: with a recursion limit just above the current depth the
+        # implementation may raise RecursionError (no result: the case is skipped), but whatever it RETURNS
+        # must still be the partition of the model
+        import sys
+        from ..lib import driver
+        f, depth = sys._getframe(), 0
+        while f:
+            depth, f = depth + 1, f.f_back
+        old_limit = sys.getrecursionlimit()
+        try:
+            sys.setrecursionlimit(depth + case["reclimit"])
+            try:
+                out = fc(thr(case["t1"]), mk())
+            except RecursionError:
+                raise driver.Skip("RecursionError under a lowered recursion limit")
+        finally:
+            sys.setrecursionlimit(old_limit)
+    else:
+        out = fc(thr(case["t1"]), mk())
     rev = fc(thr(case["t1"]), mk(), revert=True)
     tc = case.get("taxa_container", "list")     # the names as list, tuple or (one-letter names) string
     if tc == "str" and n <= 26:
